@@ -294,7 +294,7 @@ func (fr *Frame) frameObligations(ct *Contract, entry *State, r retInfo, ri int,
 	individually := 0
 	var fams []string
 	for f := range vc.famSort {
-		if strings.HasPrefix(f, "GV_") {
+		if strings.HasPrefix(f, "GV_") || strings.HasPrefix(f, "RV_") {
 			continue
 		}
 		if lockProtected[ghostBase(f)] {
